@@ -1304,17 +1304,30 @@ private:
     return ret;
   }
 
-  inline std::remove_cv_t<T_SandboxedType> get_raw_sandbox_value()
-    const noexcept
+  // A bool (or an enumeration over bool) that lives in sandbox memory can hold
+  // any byte: it is read through the checked conversion like on every other
+  // load path, never as an object of its type
+  static constexpr bool sandbox_value_is_bool_valued =
+    detail::is_bool_valued_v<std::remove_all_extents_t<T>>;
+
+  inline std::remove_cv_t<T_SandboxedType> get_raw_sandbox_value() const
+    noexcept(!sandbox_value_is_bool_valued)
   {
-    return data;
+    if constexpr (sandbox_value_is_bool_valued) {
+      std::remove_cv_t<T_SandboxedType> ret;
+      detail::convert_type_fundamental_or_array(ret, data);
+      return ret;
+    } else {
+      return data;
+    }
   };
 
   inline std::remove_cv_t<T_SandboxedType> get_raw_sandbox_value(
-    rlbox_sandbox<T_Sbx>& sandbox) const noexcept
+    rlbox_sandbox<T_Sbx>& sandbox) const
+    noexcept(!sandbox_value_is_bool_valued)
   {
     RLBOX_UNUSED(sandbox);
-    return data;
+    return get_raw_sandbox_value();
   };
 
   tainted_volatile() = default;
